@@ -1,7 +1,7 @@
 -------------------------- MODULE OverlapDefs --------------------------
 (* Pure definitions for C29: integer boxes, the 13 Allen interval relations, the cell-sharing
-   predicate, candidate "needs re-apply" rules, and the post-device material model that a material
-   sampling object (a dipole) must have seen.  Shared by Overlap.tla and Trace_Overlap.tla.
+   predicate, candidate "needs re-apply" rules, and the post-device material model (permittivity AND a
+   dispersion/conductivity class per cell) that a material sampling object must have seen.  Shared by Overlap.tla and Trace_Overlap.tla.
 
    An interval is a pair <<s, e>> of cell-edge indices, s < e, covering the cells s .. e-1
    (exactly fdtdx's _grid_slice_tuple[axis]).  A box is a 3-sequence of intervals.                 *)
@@ -62,19 +62,36 @@ Rep(r) == CASE r = "before" -> <<0, 1>>  [] r = "meets" -> <<0, 2>>       [] r =
             [] r = "met_by" -> <<5, 7>>  [] r = "after" -> <<6, 7>>
 RepsOK == \A r \in AllenNames : Allen(Rep(r), RepDev) = r
 
-\* ---------- material model used by the conformance scenes (values are 4/eps, exact integers) ----------
-\* background eps = 1 (value 4); a device cell gets material (parity of its device-local index):
-\* even -> eps 2 (value 2), odd -> eps 4 (value 1).  Later devices overwrite earlier ones.
+\* ---------- material model used by the conformance scenes ----------
+\* Every cell carries TWO attributes that an object's set-up samples:
+\*   eps : 4/eps_inf as an exact integer  (array inv_permittivities)
+\*   aux : dispersion / conductivity class, 0 = none, 1 = the device's lossy/dispersive material
+\*         (arrays dispersive_c1..c4, electric_conductivity)
+\* Background: eps = 1 (value 4), aux 0.  A device cell gets a material by the parity of its
+\* device-local index XOR the parameter pattern pat (0 or 1): even -> eps 2 (value 2), aux 0;
+\* odd -> eps 4 (value 1), aux 1.  The arrays are the result of a HISTORY of writes << device, pat >>
+\* (one per device per apply_params call); the last write covering a cell wins.
 Bg == 4
-DevVal(c, D) == IF ((c[1] - D[1][1]) + (c[2] - D[2][1]) + (c[3] - D[3][1])) % 2 = 0 THEN 2 ELSE 1
-RECURSIVE PostVal(_, _, _)
-PostVal(c, Ds, k) == IF k = 0 THEN Bg ELSE IF InBox(c, Ds[k]) THEN DevVal(c, Ds[k]) ELSE PostVal(c, Ds, k - 1)
-\* what a material-sampling object with box O holds after a set-up against the post-device arrays,
+BgAux == 0
+Parity(c, D, pat) == ((c[1] - D[1][1]) + (c[2] - D[2][1]) + (c[3] - D[3][1]) + pat) % 2
+DevVal(c, D, pat) == IF Parity(c, D, pat) = 0 THEN 2 ELSE 1
+DevAux(c, D, pat) == IF Parity(c, D, pat) = 0 THEN 0 ELSE 1
+RECURSIVE EpsAt(_, _, _, _), AuxAt(_, _, _, _)
+\* value of cell c after the first k writes of history w (w[j] = << device index, pattern >>)
+EpsAt(c, Ds, w, k) == IF k = 0 THEN Bg ELSE IF InBox(c, Ds[w[k][1]]) THEN DevVal(c, Ds[w[k][1]], w[k][2]) ELSE EpsAt(c, Ds, w, k - 1)
+AuxAt(c, Ds, w, k) == IF k = 0 THEN BgAux ELSE IF InBox(c, Ds[w[k][1]]) THEN DevAux(c, Ds[w[k][1]], w[k][2]) ELSE AuxAt(c, Ds, w, k - 1)
+\* history of one complete apply_params call with pattern pat, and of r calls with alternating patterns 0,1,0,..
+CallWrites(Ds, pat) == [ d \in 1..Len(Ds) |-> << d, pat >> ]
+RECURSIVE Calls(_, _)
+Calls(Ds, r) == IF r = 0 THEN << >> ELSE Calls(Ds, r - 1) \o CallWrites(Ds, (r - 1) % 2)
+\* what a material-sampling object with box O holds after a set-up against the arrays of history w[1..k],
 \* flattened in C order (x slowest), as a 1-based sequence
 BoxLen(O) == (O[1][2] - O[1][1]) * (O[2][2] - O[2][1]) * (O[3][2] - O[3][1])
 CellAt(O, i) ==
     LET ny == O[2][2] - O[2][1]  nz == O[3][2] - O[3][1]  j == i - 1
     IN  << O[1][1] + (j \div (ny * nz)), O[2][1] + ((j \div nz) % ny), O[3][1] + (j % nz) >>
-ExpectedSnap(O, Ds) == [ i \in 1..BoxLen(O) |-> PostVal(CellAt(O, i), Ds, Len(Ds)) ]
-PreSnap(O) == [ i \in 1..BoxLen(O) |-> Bg ]
+SnapEps(O, Ds, w, k) == [ i \in 1..BoxLen(O) |-> EpsAt(CellAt(O, i), Ds, w, k) ]
+SnapAux(O, Ds, w, k) == [ i \in 1..BoxLen(O) |-> AuxAt(CellAt(O, i), Ds, w, k) ]
+\* expected eps snapshot after the r-th apply_params call of a scene (used by the trace spec)
+ExpectedSnap(O, Ds, r) == LET w == Calls(Ds, r) IN SnapEps(O, Ds, w, Len(w))
 ========================================================================
